@@ -424,15 +424,9 @@ func (r *c24Run) opTruncateTail() bool {
 		rt.Fatalf("TruncateTail(%s,%d) returned previous tail %d, model %d", g, n, old, cur)
 	}
 	if n > cur {
+		// The hidden items stay in the model: a crash may lose the (unsynced) tail
+		// marker, in which case they become readable again and must still be correct.
 		m.tails[g] = n
-		for _, t := range r.cfg.tables {
-			if t.group != g {
-				continue
-			}
-			for p := cur; p < n; p++ {
-				delete(m.items[t.name], p)
-			}
-		}
 		if n > m.head {
 			m.head = n
 		}
